@@ -64,7 +64,7 @@ MODES = {
     "C03": Mode("C03", prerun=True, horizon=4, limits=(None, 2.5), xtocks=True),
     "C04": Mode("C04", prerun=True, raises=True, horizon=3, limits=(None, 2.0, 2.5)),
     "C05": Mode("C05", prerun=True, raises=True, enterdone=True, always=True, stale_done=True, limits=(None, 2.0, 2.5, 0.3, 1.0, 3.0),
-                ext=("uncle", "fresh"), callcfg=True),
+                ext=("uncle", "fresh"), callcfg=True, stale=True),
     "C06": Mode("C06", prerun=True, tocks=True, rets=True, enterdone=True, ext=("fresh", "present", "dup", "done", "redo", "uncle"),
                 rem=("self", "prev", "next", "far", "alias", "dupnext", "pairrev", "done", "absent"), always=True, kinds=(0, 2, 4),
                 limits=(None, 3.0, 2.0)),
